@@ -26,8 +26,8 @@ Proof.
     + apply Z.leb_le in E. constructor; auto. constructor; auto.
       eapply Forall_impl; [|exact Hall]. intros; lia.
     + apply Z.leb_gt in E. constructor; auto.
-      apply (Permutation_Forall (l1 := x :: r)); [apply Permutation_sym, insertZ_perm|].
-      constructor; auto. lia.
+      assert (Hf : Forall (Z.le y) (x :: r)) by (constructor; auto; lia).
+      eapply Permutation_Forall; [apply Permutation_sym, insertZ_perm|exact Hf].
 Qed.
 
 Lemma isort_sorted : forall l, StronglySorted Z.le (isort l).
@@ -74,14 +74,14 @@ Section Ordered.
                             end) = Ok v /\ DistRoot len c (sid s) v).
     { destruct (sparent s) as [[p f]|] eqn:Ep.
       - pose proof (Hinv p) as Hp. destruct (alookup (o_pd st) p) as [pdv|] eqn:Epd.
-        + destruct (alookup (o_pp st) p) as [ppv|] eqn:Epp; [|contradiction].
+        + destruct (alookup (o_pp st) p) as [ppv|] eqn:Epp; cbn iota in Hp; [|contradiction].
           destruct Hp as [-> Hd]. exists (ppv + (ppv + len p - ppv) * f)%Q. split; auto.
           eapply DR_eq; [eapply DR_kid; eauto|]. ring.
         + apply walk_up_spec; auto.
       - exists 0%Q. split; auto. now apply DR_root. }
     destruct Hpp as [v [Hv Hdv]]. rewrite Hv. cbn [bind].
     eexists. split; [reflexivity|]. cbn [o_pp o_pd o_tot o_cum]. repeat split; eauto.
-    intro id. cbn [alookup]. destruct (sid s =? id) eqn:E.
+    intro id. simpl. destruct (sid s =? id) eqn:E.
     - apply Z.eqb_eq in E. subst id. split; auto.
     - apply Hinv.
   Qed.
@@ -211,8 +211,8 @@ Proof.
   - right. rewrite (rconcat_in _ _ E) in Hin. destruct Hin as [r' [Hr' Hx]].
     apply in_map_iff in Hr'. destruct Hr' as [[[a b] w0] [He Hine]].
     unfold esrc, edst, ew in He. simpl in He.
-    destruct ((a =? n) && negb (over (Some m) (d + w0)%Q)) eqn:Ec.
-    + apply andb_prop in Ec. destruct Ec as [_ Eo]. unfold over in Eo. rewrite negb_involutive in Eo.
+    destruct ((a =? n) && negb (negb (Qle_bool (d + w0) m))) eqn:Ec.
+    + apply andb_prop in Ec. destruct Ec as [_ Eo]. rewrite negb_involutive in Eo.
       apply Qle_bool_iff in Eo.
       destruct (IH _ _ _ _ _ _ He _ _ _ Hx) as [[_ ->]|Hle]; auto.
     + inversion He; subst. inversion Hx.
